@@ -1,0 +1,146 @@
+//go:build verif
+
+// Contracts for the verification machinery in /verif (comment-only; excluded from normal builds).
+// Property C17 (RISC-V part). Mode bv.
+//
+// Oracle: RISC-V unprivileged ISA, instruction formats R/I/S/B/U/J and the RV32I/RV64I/M opcode listings.
+// The "independent disassembler" is the ISA's field layout written as spec functions (d_* below); the
+// table isa() is transcribed from the manual, NOT from _AOpContextTable. packed: fmt<<24 | funct7<<16 | funct3<<8 | opcode
+// fmt: 1=R 2=I 3=S 4=B 5=U 6=J 7=shift-immediate (funct6+shamt6 on RV64, funct7+shamt5 on RV32)
+//      8=shift-immediate W (funct7+shamt5) 9=fixed word (ECALL/EBREAK: funct7 column holds imm12)
+// F/D, A, Zicsr and the pseudo-instructions are not claimed (isa() == 0).
+
+package riscv
+
+//@ spec isa(k abi.As) uint32 :=
+//@      ite(k == ALUI, 0x05000037,
+//@      ite(k == AAUIPC, 0x05000017,
+//@      ite(k == AJAL, 0x0600006f,
+//@      ite(k == AJALR, 0x02000067,
+//@      ite(k == ABEQ, 0x04000063,
+//@      ite(k == ABNE, 0x04000163,
+//@      ite(k == ABLT, 0x04000463,
+//@      ite(k == ABGE, 0x04000563,
+//@      ite(k == ABLTU, 0x04000663,
+//@      ite(k == ABGEU, 0x04000763,
+//@      ite(k == ALB, 0x02000003,
+//@      ite(k == ALH, 0x02000103,
+//@      ite(k == ALW, 0x02000203,
+//@      ite(k == ALBU, 0x02000403,
+//@      ite(k == ALHU, 0x02000503,
+//@      ite(k == ALWU, 0x02000603,
+//@      ite(k == ALD, 0x02000303,
+//@      ite(k == ASB, 0x03000023,
+//@      ite(k == ASH, 0x03000123,
+//@      ite(k == ASW, 0x03000223,
+//@      ite(k == ASD, 0x03000323,
+//@      ite(k == AADDI, 0x02000013,
+//@      ite(k == ASLTI, 0x02000213,
+//@      ite(k == ASLTIU, 0x02000313,
+//@      ite(k == AXORI, 0x02000413,
+//@      ite(k == AORI, 0x02000613,
+//@      ite(k == AANDI, 0x02000713,
+//@      ite(k == ASLLI, 0x07000113,
+//@      ite(k == ASRLI, 0x07000513,
+//@      ite(k == ASRAI, 0x07200513,
+//@      ite(k == AADD, 0x01000033,
+//@      ite(k == ASUB, 0x01200033,
+//@      ite(k == ASLL, 0x01000133,
+//@      ite(k == ASLT, 0x01000233,
+//@      ite(k == ASLTU, 0x01000333,
+//@      ite(k == AXOR, 0x01000433,
+//@      ite(k == ASRL, 0x01000533,
+//@      ite(k == ASRA, 0x01200533,
+//@      ite(k == AOR, 0x01000633,
+//@      ite(k == AAND, 0x01000733,
+//@      ite(k == AFENCE, 0x0200000f,
+//@      ite(k == AECALL, 0x09000073,
+//@      ite(k == AEBREAK, 0x09010073,
+//@      ite(k == AADDIW, 0x0200001b,
+//@      ite(k == ASLLIW, 0x0800011b,
+//@      ite(k == ASRLIW, 0x0800051b,
+//@      ite(k == ASRAIW, 0x0820051b,
+//@      ite(k == AADDW, 0x0100003b,
+//@      ite(k == ASUBW, 0x0120003b,
+//@      ite(k == ASLLW, 0x0100013b,
+//@      ite(k == ASRLW, 0x0100053b,
+//@      ite(k == ASRAW, 0x0120053b,
+//@      ite(k == AMUL, 0x01010033,
+//@      ite(k == AMULH, 0x01010133,
+//@      ite(k == AMULHSU, 0x01010233,
+//@      ite(k == AMULHU, 0x01010333,
+//@      ite(k == ADIV, 0x01010433,
+//@      ite(k == ADIVU, 0x01010533,
+//@      ite(k == AREM, 0x01010633,
+//@      ite(k == AREMU, 0x01010733,
+//@      ite(k == AMULW, 0x0101003b,
+//@      ite(k == ADIVW, 0x0101043b,
+//@      ite(k == ADIVUW, 0x0101053b,
+//@      ite(k == AREMW, 0x0101063b,
+//@      ite(k == AREMUW, 0x0101073b,
+//@      0)))))))))))))))))))))))))))))))))))))))))))))))))))))))))))))))))
+
+//@ spec isa_fmt(k abi.As) uint32 := isa(k) >> 24
+//@ spec isa_op(k abi.As) uint32 := isa(k) & 0x7f
+//@ spec isa_f3(k abi.As) uint32 := (isa(k) >> 8) & 7
+//@ spec isa_f7(k abi.As) uint32 := (isa(k) >> 16) & 0x7f
+
+// field extraction as a disassembler does it
+//@ spec (define-fun d_op  ((w (_ BitVec 32))) (_ BitVec 32) ((_ zero_extend 25) ((_ extract 6 0) w)))
+//@ spec (define-fun d_rd  ((w (_ BitVec 32))) (_ BitVec 32) ((_ zero_extend 27) ((_ extract 11 7) w)))
+//@ spec (define-fun d_f3  ((w (_ BitVec 32))) (_ BitVec 32) ((_ zero_extend 29) ((_ extract 14 12) w)))
+//@ spec (define-fun d_rs1 ((w (_ BitVec 32))) (_ BitVec 32) ((_ zero_extend 27) ((_ extract 19 15) w)))
+//@ spec (define-fun d_rs2 ((w (_ BitVec 32))) (_ BitVec 32) ((_ zero_extend 27) ((_ extract 24 20) w)))
+//@ spec (define-fun d_f7  ((w (_ BitVec 32))) (_ BitVec 32) ((_ zero_extend 25) ((_ extract 31 25) w)))
+//@ spec (define-fun d_f6  ((w (_ BitVec 32))) (_ BitVec 32) ((_ zero_extend 26) ((_ extract 31 26) w)))
+//@ spec (define-fun d_sh6 ((w (_ BitVec 32))) (_ BitVec 32) ((_ zero_extend 26) ((_ extract 25 20) w)))
+//@ spec (define-fun d_immI ((w (_ BitVec 32))) (_ BitVec 32) ((_ sign_extend 20) ((_ extract 31 20) w)))
+//@ spec (define-fun d_immS ((w (_ BitVec 32))) (_ BitVec 32) ((_ sign_extend 20) (concat ((_ extract 31 25) w) ((_ extract 11 7) w))))
+//@ spec (define-fun d_immB ((w (_ BitVec 32))) (_ BitVec 32)
+//@        ((_ sign_extend 19) (concat ((_ extract 31 31) w) (concat ((_ extract 7 7) w) (concat ((_ extract 30 25) w) (concat ((_ extract 11 8) w) #b0))))))
+//@ spec (define-fun d_immU ((w (_ BitVec 32))) (_ BitVec 32) ((_ zero_extend 12) ((_ extract 31 12) w)))
+//@ spec (define-fun d_immJ ((w (_ BitVec 32))) (_ BitVec 32)
+//@        ((_ sign_extend 11) (concat ((_ extract 31 31) w) (concat ((_ extract 19 12) w) (concat ((_ extract 20 20) w) (concat ((_ extract 30 21) w) #b0))))))
+
+// machine number of an integer register operand
+//@ spec reg(r abi.RegType) uint32 := uint32(r) - uint32(REG_X0)
+
+//@ func AsString
+//@   trusted
+
+//@ func EncodeRV64
+//@   results w, err
+//@   foreach k in keys(_AOpContextTable) where isa(k) != 0
+//@   requires[bind] as == k
+//@   requires arg != nil
+//@   ensures[opcode]  err == nil ==> d_op(w) == isa_op(k)
+//@   ensures[R]       err == nil && isa_fmt(k) == 1 ==> d_f3(w) == isa_f3(k) && d_f7(w) == isa_f7(k) && d_rd(w) == reg(arg.Rd) && d_rs1(w) == reg(arg.Rs1) && d_rs2(w) == reg(arg.Rs2)
+//@   ensures[I]       err == nil && isa_fmt(k) == 2 ==> d_f3(w) == isa_f3(k) && d_rd(w) == reg(arg.Rd) && d_rs1(w) == reg(arg.Rs1) && d_immI(w) == uint32(arg.Imm)
+//@   ensures[S]       err == nil && isa_fmt(k) == 3 ==> d_f3(w) == isa_f3(k) && d_rs1(w) == reg(arg.Rs1) && d_rs2(w) == reg(arg.Rs2) && d_immS(w) == uint32(arg.Imm)
+//@   ensures[B]       err == nil && isa_fmt(k) == 4 ==> d_f3(w) == isa_f3(k) && d_rs1(w) == reg(arg.Rs1) && d_rs2(w) == reg(arg.Rs2) && d_immB(w) == uint32(arg.Imm)
+//@   ensures[U]       err == nil && isa_fmt(k) == 5 ==> d_rd(w) == reg(arg.Rd) && d_immU(w) == uint32(arg.Imm) & 0xfffff
+//@   ensures[Urange]  err == nil && isa_fmt(k) == 5 ==> -(1 << 19) <= arg.Imm && arg.Imm < (1 << 20)
+//@   ensures[J]       err == nil && isa_fmt(k) == 6 ==> d_immJ(w) == uint32(arg.Imm)
+//@   ensures[Jrd]     err == nil && isa_fmt(k) == 6 && arg.Rd != 0 ==> d_rd(w) == reg(arg.Rd)
+//@   ensures[shift]   err == nil && isa_fmt(k) == 7 ==> d_f3(w) == isa_f3(k) && d_rd(w) == reg(arg.Rd) && d_rs1(w) == reg(arg.Rs1) && d_f6(w) == isa_f7(k) >> 1 && d_sh6(w) == uint32(arg.Imm)
+//@   ensures[shiftW]  err == nil && isa_fmt(k) == 8 ==> d_f3(w) == isa_f3(k) && d_rd(w) == reg(arg.Rd) && d_rs1(w) == reg(arg.Rs1) && d_f7(w) == isa_f7(k) && d_rs2(w) == uint32(arg.Imm)
+//@   ensures[fixed]   err == nil && isa_fmt(k) == 9 ==> w == (isa_f7(k) << 20) | 0x73
+//@   property C17
+
+//@ func EncodeRV32
+//@   results w, err
+//@   foreach k in keys(_AOpContextTable) where isa(k) != 0
+//@   requires[bind] as == k
+//@   requires arg != nil
+//@   ensures[opcode]  err == nil ==> d_op(w) == isa_op(k)
+//@   ensures[R]       err == nil && isa_fmt(k) == 1 ==> d_f3(w) == isa_f3(k) && d_f7(w) == isa_f7(k) && d_rd(w) == reg(arg.Rd) && d_rs1(w) == reg(arg.Rs1) && d_rs2(w) == reg(arg.Rs2)
+//@   ensures[I]       err == nil && isa_fmt(k) == 2 ==> d_f3(w) == isa_f3(k) && d_rd(w) == reg(arg.Rd) && d_rs1(w) == reg(arg.Rs1) && d_immI(w) == uint32(arg.Imm)
+//@   ensures[S]       err == nil && isa_fmt(k) == 3 ==> d_f3(w) == isa_f3(k) && d_rs1(w) == reg(arg.Rs1) && d_rs2(w) == reg(arg.Rs2) && d_immS(w) == uint32(arg.Imm)
+//@   ensures[B]       err == nil && isa_fmt(k) == 4 ==> d_f3(w) == isa_f3(k) && d_rs1(w) == reg(arg.Rs1) && d_rs2(w) == reg(arg.Rs2) && d_immB(w) == uint32(arg.Imm)
+//@   ensures[U]       err == nil && isa_fmt(k) == 5 ==> d_rd(w) == reg(arg.Rd) && d_immU(w) == uint32(arg.Imm) & 0xfffff
+//@   ensures[Urange]  err == nil && isa_fmt(k) == 5 ==> -(1 << 19) <= arg.Imm && arg.Imm < (1 << 20)
+//@   ensures[J]       err == nil && isa_fmt(k) == 6 ==> d_immJ(w) == uint32(arg.Imm)
+//@   ensures[Jrd]     err == nil && isa_fmt(k) == 6 && arg.Rd != 0 ==> d_rd(w) == reg(arg.Rd)
+//@   ensures[shift]   err == nil && (isa_fmt(k) == 7 || isa_fmt(k) == 8) ==> d_f3(w) == isa_f3(k) && d_rd(w) == reg(arg.Rd) && d_rs1(w) == reg(arg.Rs1) && d_f7(w) == isa_f7(k) && d_rs2(w) == uint32(arg.Imm)
+//@   ensures[fixed]   err == nil && isa_fmt(k) == 9 ==> w == (isa_f7(k) << 20) | 0x73
+//@   property C17
